@@ -19,6 +19,7 @@ import (
 const (
 	c10KeyPDFPageTreeCycle = "C10-extractor.PDF-pdfcpu-stackoverflow-pagetree-cycle"
 	c10KeyPDFNestedDict    = "C10-extractor.PDF-pdfcpu-hang-nested-dict"
+	c10KeyM3U8Memory       = "C10-extractor.M3U8-m3u8-memory-blowup"
 	// the parser retries every dictionary that failed to parse a second time ("relaxed"), at every nesting level: 2^depth
 	c10PDFDictDepthLimit = 14
 )
@@ -106,9 +107,33 @@ func c10PDFDictDepth(b []byte) int {
 	return deepest
 }
 
+// c10M3U8AttachCost estimates the pointers grafov/m3u8 appends while decoding a master playlist: on EVERY line it
+// attaches every rendition seen so far (never reset by #EXT-X-STREAM-INF) to every variant seen so far.
+func c10M3U8AttachCost(b []byte) int64 {
+	var lines, variants, alts, cost int64
+	for _, l := range bytes.Split(b, []byte("\n")) {
+		l = bytes.TrimSpace(l)
+		if len(l) == 0 {
+			continue
+		}
+		lines++
+		switch {
+		case bytes.HasPrefix(l, []byte("#EXT-X-MEDIA:")):
+			alts++
+		case bytes.HasPrefix(l, []byte("#EXT-X-STREAM-INF:")), bytes.HasPrefix(l, []byte("#EXT-X-I-FRAME-STREAM-INF:")):
+			variants++
+		}
+		cost += variants * alts
+	}
+	return cost
+}
+
 // c10FatalClass names the OPEN finding an input belongs to when that class cannot be survived in-process (fatal
 // runtime error, or a hang that costs a core for ever): such inputs are kept out of the search before execution.
 func c10FatalClass(c c10Case) string {
+	if (c.Target == "m3u8" || c.Target == "chain") && veriflib.FindingOpen(c10KeyM3U8Memory) && c10M3U8AttachCost(c.Body) > 4<<20 {
+		return c10KeyM3U8Memory // > 4 Mi appended pointers (32 MiB): the class that grows to gigabytes
+	}
 	cycle, nested := veriflib.FindingOpen(c10KeyPDFPageTreeCycle), veriflib.FindingOpen(c10KeyPDFNestedDict)
 	if !cycle && !nested || c.Target != "pdf" && c.Target != "chain" || !bytes.Contains(c.Body[:min(len(c.Body), 2048)], []byte("%PDF-")) {
 		return ""
@@ -159,4 +184,16 @@ func TestVerifKF_C10_extractor_PDF_pdfcpu_hang_nested_dict(t *testing.T) {
 		defer os.Unsetenv("VERIF_C10_BUDGET_MS")
 	}
 	propC10(t, c10Case{Target: "pdf", Body: body, Note: "known finding " + c10KeyPDFNestedDict})
+}
+
+// TestVerifKF_C10_extractor_M3U8_m3u8_memory_blowup: a 64 KiB master playlist (640 x {#EXT-X-MEDIA, #EXT-X-STREAM-INF, URI})
+// makes grafov/m3u8 append ~10^8 rendition pointers (cubic in the number of lines): > 4 GiB of heap for one response.
+func TestVerifKF_C10_extractor_M3U8_m3u8_memory_blowup(t *testing.T) {
+	defer veriflib.Flush()
+	defer c10JournalEnd("")
+	body := []byte("#EXTM3U\n" + c10Rep("#EXT-X-MEDIA:TYPE=AUDIO,GROUP-ID=\"a\",URI=\"a.m3u8\"\n#EXT-X-STREAM-INF:BANDWIDTH=1,AUDIO=\"a\"\nv.m3u8\n", 640))
+	if c10M3U8AttachCost(body) <= 4<<20 {
+		t.Fatalf("harness: the pre-execution filter does not recognise the minimal input of %s", c10KeyM3U8Memory)
+	}
+	propC10(t, c10Case{Target: "m3u8", Body: body, Note: "known finding " + c10KeyM3U8Memory})
 }
